@@ -1,14 +1,15 @@
 (* Properties_C13.v — property C13: threads are isolated; join publishes; Mutex excludes.
    Statements about the interleaving machine of Threads.v instantiated with the parameters re-read
    from the C sources (Generated.v): thr_clear_on_catch (exception_catch), thr_trylock_busy_result
-   (Mutex_Trylock on EBUSY), and shared_exc = false (Exception_Current goes through the thread's TLS).
+   (Mutex_Trylock on EBUSY), shared_exc = false (Exception_Current goes through the thread's TLS) and
+   walk_foreign = false (Thread_Mark walks only the current thread's TLS: repair 6bcc387).
    Only statements closed by `exact`, each followed by Print Assumptions. *)
 From Coq Require Import List Arith Bool.
 From CelloV Require Import Generated Threads ThreadsProofs.
 Import ListNotations.
 
-Notation M_step := (gstep thr_clear_on_catch thr_trylock_busy_result (negb thr_exc_via_tls)).
-Notation M_run := (run thr_clear_on_catch thr_trylock_busy_result (negb thr_exc_via_tls)).
+Notation M_step := (gstep thr_clear_on_catch thr_trylock_busy_result (negb thr_exc_via_tls) (negb thr_mark_own_tls_only)).
+Notation M_run := (run thr_clear_on_catch thr_trylock_busy_result (negb thr_exc_via_tls) (negb thr_mark_own_tls_only)).
 Notation M_alone := (alone thr_clear_on_catch).
 
 (* 1. isolation, every schedule: a thread's core (continuation, own collector registry and ledger, own
@@ -84,17 +85,26 @@ Print Assumptions join_publishes.
    isolation, a trylock that claims success on EBUSY breaks exclusion *)
 Theorem shared_exception_record_refuted : forall c b,
   exists ps sched t,
-    match nth_error (thr (run c b true sched (ginit ps))) t, nth_error ps t with
+    match nth_error (thr (run c b true false sched (ginit ps))) t, nth_error ps t with
     | Some (l, s), Some p => depth (exc l) =? depth (exc (alone c (steps s) (linit t p))) = false
     | _, _ => False
     end.
 Proof. exact ThreadsProofs.isolation_refuted_shared. Qed.
 Print Assumptions shared_exception_record_refuted.
 
+Theorem foreign_tls_walk_refuted : forall c b,
+  exists ps sched t,
+    match nth_error (thr (run c b false true sched (ginit ps))) t, nth_error ps t with
+    | Some (l, s), Some p => length (tls l) =? length (tls (alone c (steps s) (linit t p))) = false
+    | _, _ => False
+    end.
+Proof. exact ThreadsProofs.isolation_refuted_foreign_walk. Qed.
+Print Assumptions foreign_tls_walk_refuted.
+
 Theorem trylock_true_on_busy_refuted : forall c,
   exists ps sched l1 s1 l2 s2 m,
-    nth_error (thr (run c true false sched (ginit ps))) 0 = Some (l1, s1) /\
-    nth_error (thr (run c true false sched (ginit ps))) 1 = Some (l2, s2) /\
+    nth_error (thr (run c true false false sched (ginit ps))) 0 = Some (l1, s1) /\
+    nth_error (thr (run c true false false sched (ginit ps))) 1 = Some (l2, s2) /\
     In m (holding s1) /\ In m (holding s2).
 Proof. exact ThreadsProofs.exclusion_refuted_busy_true. Qed.
 Print Assumptions trylock_true_on_busy_refuted.
@@ -108,7 +118,7 @@ Print Assumptions statics_audited.
 Theorem source_shapes :
   thr_exc_via_tls = true /\ thr_gc_via_tls = true /\ thr_current_via_key = true /\
   thr_init_own_records = true /\ thr_join_waits = true /\ thr_with_is_lock_unlock = true /\
-  thr_trylock_busy_result = false.
+  thr_trylock_busy_result = false /\ thr_mark_own_tls_only = true.
 Proof. exact ThreadsProofs.source_shapes. Qed.
 Print Assumptions source_shapes.
 
